@@ -24,7 +24,9 @@ seq <i> <client> <T> <K>                             -> <i> ok <T*K>
 seqbig <i> <client> <T> <K> <nbig>                   -> <i> ok <T*K>   (ws: oversized requests refused meanwhile)
 fwd <i> 1 <ids|dup|reuse>                            -> <i> ok         (forward_message, caller-chosen ids)
 life <i> <client> <seed>                             -> <i> ok         (one client, long mixed sequence)
-lates <i> <client> <K> <late|unknown|dup>            -> <i> pending own later own
+lates|mlates <i> <client> <K> <late|unknown|dup|cancel|errs|push>  -> <i> pending own later own
+batchtmo <i> <client> <N>                            -> <i> ok
+slowpeer <i> <client> <MiB>                          -> <i> small own big ok later own
 fwdres <i> 1                                         -> <i> ok         (forward timed out / cancelled: no residue)
 sched <i> <client> <N> <S0,W0,Fr0,D,T0,C0,X,A,..>    -> <i> got <tag|T|E|HANG|->,.. gates <m|u|n>,..
       (forced on the real client through the verif-hooks probe points, see fam_mux.rs `mod sched`)
@@ -256,6 +258,15 @@ def runLates (cfg : Cfg) (k : Nat) (shape : String) : String :=
     if shape == "late" then
       let s := callers.foldl (fun s c => [Ev.alloc c, .register c, .write c, .timeout c, .cleanup c].foldl (step cfg) s) s
       callers.foldl (fun s c => [Ev.rmatch { id := (s.calls c).id, notify := false, tag := c }, .deliver].foldl (step cfg) s) s
+    else if shape == "cancel" then
+      let s := callers.foldl (fun s c => [Ev.alloc c, .register c, .write c, .cancel c, .cleanup c].foldl (step cfg) s) s
+      callers.foldl (fun s c => [Ev.rmatch { id := (s.calls c).id, notify := false, tag := c }, .deliver].foldl (step cfg) s) s
+    else if shape == "errs" then
+      let s := callers.foldl (fun s c => [Ev.alloc c, .register c, .write c].foldl (step cfg) s) s
+      callers.foldl (fun s c => [Ev.rmatch { id := (s.calls c).id, notify := false, tag := c }, .deliver, .recv c].foldl (step cfg) s) s
+    else if shape == "push" then
+      let s := step cfg s .subscribe
+      callers.foldl (fun s j => [Ev.rmatch { id := 3000000000 + j, notify := true, tag := j }, .deliver].foldl (step cfg) s) s
     else if shape == "dup" then
       let s := [Ev.alloc 1, .register 1, .write 1].foldl (step cfg) s
       let s := [Ev.rmatch { id := (s.calls 1).id, notify := false, tag := 1 }, .deliver, .recv 1].foldl (step cfg) s
@@ -400,6 +411,10 @@ def stepLine (_ : Unit) (ws : List String) : Unit × String :=
     match cfgOf (natOf client) with
     | none => bad i
     | some cfg => ((), i ++ (if runSeq cfg 3 == "ok 3" then " ok" else " bad"))
+  | ["drops", i, client] =>
+    match cfgOf (natOf client) with
+    | none => bad i
+    | some cfg => ((), i ++ (if runSeq cfg 1 == "ok 1" then " ok" else " bad"))
   | ["life", i, client, _seed] =>
     -- one client through timeouts, error responses, failed serialisations, notifies, a batch, a cancel:
     -- in the model each of these leaves the state in which the next call is served (`others_still_served`)
@@ -409,6 +424,24 @@ def stepLine (_ : Unit) (ws : List String) : Unit × String :=
       let a := runTmo cfg "late"
       let b := runCancel cfg "wait"
       ((), i ++ (if a == "first Timeout next own" && b == "cancelled next own residue 0" && runSeq cfg 4 == "ok 4" then " ok" else " bad"))
+  | ["mlates", i, client, k, shape] =>
+    match cfgOf (natOf client) with
+    | none => bad i
+    | some cfg => ((), i ++ " " ++ runLates cfg (natOf k) shape)
+  | ["knobs", i, client, n] =>
+    match cfgOf (natOf client) with
+    | none => bad i
+    | some cfg => ((), i ++ (if runSeq cfg (natOf n + 1) == "ok " ++ toString (natOf n + 1) then " ok" else " bad"))
+  | ["batchtmo", i, client, _n] =>
+    -- a timed-out entry is one call's `timeout`/`cleanup`; the other entries are served (`others_still_served`)
+    match cfgOf (natOf client) with
+    | none => bad i
+    | some cfg => ((), i ++ (if runTmo cfg "late" == "first Timeout next own" then " ok" else " bad"))
+  | ["slowpeer", i, client, _mib] =>
+    -- a slow write is no event of the model: the call in flight and the later call are served
+    match cfgOf (natOf client) with
+    | none => bad i
+    | some cfg => ((), i ++ (if runSeq cfg 3 == "ok 3" then " small own big ok later own" else " bad"))
   | ["lates", i, client, k, shape] =>
     match cfgOf (natOf client) with
     | none => bad i
